@@ -297,7 +297,7 @@ def random_conc(h, n, seed):
                 e[0] += 1
                 if not ok:
                     e[1] += 1
-                    if len(stats['failures']) < 5:
+                    if e[1] == 1 and len(stats['failures']) < 40:       # the first failing input of every distinct clause
                         stats['failures'].append({'clause': cl, 'kind': k, 'inputs': _jsonable(c.values), 'meta': _jsonable(m)})
     finally:
         set_ctx(None)
